@@ -2,6 +2,7 @@ import Gv.Model.Phase
 import Gv.Model.Facts
 import Gv.Proofs.PoolCore
 import Gv.Proofs.PhaseAlignNT
+import Gv.Proofs.PhaseAlignMulti
 /-!
 # C16 — phasing
 
@@ -21,13 +22,16 @@ import Gv.Proofs.PhaseAlignNT
   two instances (match/mismatch scores; default DNAfull scores on A/C/G/T); what the repaired code returns
   where the first shipped code panicked: `phase_nt_removed_is_untrimmed_input`,
   `phase_nt_without_positive_alignment_is_removed`, `phase_nt_hit_shorter_than_frame_shift_reports_error`;
-  `atg_aligner_never_panics`.
+  `atg_aligner_never_panics`;
+  several references and either strand: `phase_nt_verbatim_multi_partial` (`Gv.Proofs.PhaseAlignMulti`).
 
 Partial: the clause "a sequence containing the reference ORF verbatim once is trimmed at its start" is proved
-for the nucleotide mode (`phasent`), ONE reference, gap penalties
-`gapopen ≤ gapextend < 0` and a diagonally dominant scoring scheme (every match/mismatch scheme with
-`mismatch < match`, `0 < match`, one or both strands; DNAfull on A/C/G/T, forward strand) — not for the
-translate mode (BLOSUM62 on the three or six translations) or several references, where it enters only as a `Hit`
+for the nucleotide mode (`phasent`), gap penalties
+`gapopen ≤ gapextend < 0` and a diagonally dominant scoring scheme: ONE reference (every match/mismatch scheme with
+`mismatch < match`, `0 < match`, one or both strands; DNAfull on A/C/G/T, forward strand), and SEVERAL references
+with the occurrence on either strand (`phase_nt_verbatim_multi_partial`: the other references must not reach the
+verbatim one's self-score, and the strands tried earlier hold no gap character) — not for the
+translate mode (BLOSUM62 on the three or six translations), where it enters only as a `Hit`
 and is checked on the implementation by the oracle predicate.  The Go memory model / scheduler are outside the model.
 -/
 namespace Gv.Props.C16
@@ -448,6 +452,7 @@ theorem instanceOfPool_closes_results {J V : Type} [DecidableEq J] (F : Facts) (
 
 section verbatim
 open Gv.Model.SW Gv.Model.PhaseAlign Gv.Proofs.PhaseAlignSpec Gv.Proofs.PhaseAlign Gv.Proofs.PhaseAlignNT
+open Gv.Proofs.PhaseAlignMulti (pairs strand)
 open Gv.Props.C09 (schemeOf)
 
 /-- **the `ALIGN_ALGO_ATG` aligner returns a verbatim occurrence as it is** (repaired `fillMatrix_SW`).
@@ -543,6 +548,136 @@ example :
       NTOut.ok ⟨2, [65, 84, 71, 65, 65, 65, 84, 65, 65, 67, 67], [65, 84, 71, 65, 65, 65, 84, 65, 65, 67, 67],
         some [77, 75, 42]⟩ ⟨false, 0, 2, 10⟩ :=
   ⟨once_of_occurrences _ _ 2 (by decide) (by decide), by decide⟩
+
+/-! ### several references, occurrence on either strand -/
+
+/-- the order in which `alignAgainstRefsNT` tries its (reference, strand) pairs — `Gv.Proofs.PhaseAlignMulti.pairs`:
+for each reference the forward strand (`false`), then with `reverse` the reverse-complemented copy (`true`);
+`strand seq v` is the copy of the sequence the flag stands for.  `ntSelect`, the model's two nested loops, is one
+pass of `ntStep` over that list (`Gv.Proofs.PhaseAlignMulti.ntSelect_eq_fold`). -/
+theorem phase_nt_pairs_order (c : NTCfg) (r : Seq) (rest : List Seq) (seq : Seq) :
+    pairs c [] = [] ∧
+    pairs c (r :: rest) = (if c.reverse then [(r, false), (r, true)] else [(r, false)]) ++ pairs c rest ∧
+    strand seq false = seq ∧ strand seq true = revcompIgnoringError seq := by
+  refine ⟨rfl, ?_, rfl, rfl⟩
+  simp [pairs, List.flatMap_cons]
+
+/-- **the verbatim clause for SEVERAL references and an occurrence on EITHER strand** — nucleotide mode
+(`alignAgainstRefsNT`), repaired aligner.  Let `pairs c orfs` be the (reference, strand) pairs in the order they are
+tried.  Suppose the pair `(r, v)` at index `k` satisfies the single-reference premise of
+`phase_nt_verbatim_trimmed_at_orf_start_partial` on its own strand `t = strand seq v`: gap penalties
+`gapopen ≤ gapextend < 0`, `r` non-empty and without gap character, the scheme used for `(r, t)` diagonally
+dominant, `r` occurs in `t` at offset `p` and at no other offset; and every other pair `(r', v')` at index `j` is
+diagonally dominant on its strand with self-score `W … r' ≤ W … r` when `k < j` (tried later: a tie keeps the
+earlier hit) and, when `j < k` (tried earlier: it must not reach the verbatim score), `W … r' < W … r` — or,
+weaker than the informal statement asks, `W … r' ≤ W … r` and `r'` occurs nowhere on its strand (needed to apply
+the theorem to an occurrence on the reverse strand at all: the same reference is tried on the forward strand
+first, with the same self-score under match/mismatch scoring; `alignATG_score_lt`).  Hypothesis
+BEYOND the informal statement, for the pairs tried EARLIER only: their strand holds no gap character `-` — without
+it the statement is false (the reference `-` against a sequence containing `-` scores positively with an aligned
+row `-`, on which the phaser's `for Seq2Ali()[i] == '-'` loop runs off the slice: `NTOut.panic`); with it the
+aligned row always holds a residue (`alignATG_row2_has_residue`).
+Conclusion: unless an alignment error is reported, the result is the occurrence — reported position `p`, trimmed
+nucleotides `t.drop p` (`r` with cut-end), codon sequence = trimmed sequence (frame 0), and the hit is on the
+strand `v` (`rev = v`).  Proved by induction over the list of pairs (`Gv.Proofs.PhaseAlignMulti`): before index
+`k` the running best stays `< W … r` (`alignATG_score_le`), at `k` it becomes the occurrence (`alignATG_verbatim`),
+afterwards no score is strictly greater. -/
+theorem phase_nt_verbatim_multi_partial (c : NTCfg) (code : List (List Byte × Byte)) (orfs : List Seq) (seq : Seq)
+    (k : Nat) (r : Seq) (v : Bool) (p : Nat)
+    (hfix : c.fixed = true) (hgap : c.gapopen ≤ c.gapextend ∧ c.gapextend < 0)
+    (hk : (pairs c orfs)[k]? = some (r, v))
+    (hne : r ≠ []) (hng : GAP ∉ r)
+    (hdom : Dom (schemeOf (c.aligner r (strand seq v))) r (strand seq v))
+    (hocc : r <+: (strand seq v).drop p)
+    (honce : ∀ q, r <+: (strand seq v).drop q → q = p)
+    (hothers : ∀ j r' v', (pairs c orfs)[j]? = some (r', v') → j ≠ k →
+      Dom (schemeOf (c.aligner r' (strand seq v'))) r' (strand seq v') ∧
+      (j < k → GAP ∉ strand seq v' ∧
+        (W (schemeOf (c.aligner r' (strand seq v'))) r' < W (schemeOf (c.aligner r (strand seq v))) r ∨
+          (W (schemeOf (c.aligner r' (strand seq v'))) r' ≤ W (schemeOf (c.aligner r (strand seq v))) r ∧
+            ∀ q, ¬ r' <+: (strand seq v').drop q))) ∧
+      (k < j → W (schemeOf (c.aligner r' (strand seq v'))) r' ≤ W (schemeOf (c.aligner r (strand seq v))) r)) :
+    phaseNT c code orfs seq = NTOut.err ∨
+    ∃ ph, phaseNT c code orfs seq = NTOut.ok ph ⟨v, 0, p, p + r.length - 1⟩ ∧
+      ph.position = p ∧ ph.nt = (if c.cutend then r else (strand seq v).drop p) ∧ ph.codon = ph.nt :=
+  Gv.Proofs.PhaseAlignMulti.phaseNT_verbatim_multi c code orfs seq k r v p hfix hgap hk hne hng hdom hocc honce
+    hothers
+
+/-- both strands, `SetAlignScores(2, -1)` -/
+private def exCfg : NTCfg := { reverse := true, scores := some (2, -1) }
+/-- `ATGTAA` -/
+private def exRef1 : Seq := [65, 84, 71, 84, 65, 65]
+/-- `ATGAAATAA` -/
+private def exRef2 : Seq := [65, 84, 71, 65, 65, 65, 84, 65, 65]
+/-- `GGTTATTTCATGG`, the reverse complement of `CC ATGAAATAA CC` -/
+private def exSeq : Seq := [71, 71, 84, 84, 65, 84, 84, 84, 67, 65, 84, 71, 71]
+
+set_option maxRecDepth 100000 in
+/-- the hypotheses are satisfiable on a two-reference input with the occurrence on the REVERSE strand (`ATGTAA`,
+`ATGAAATAA` against `GGTTATTTCATGG`; pairs tried: `(ATGTAA, +)`, `(ATGTAA, -)`, `(ATGAAATAA, +)`, `(ATGAAATAA, -)`,
+the verbatim one is the last: `k = 3`, offset 2 of the reverse-complemented copy), and the conclusion is the
+non-error disjunct -/
+example :
+    -- the premises of `phase_nt_verbatim_multi_partial` for `k = 3`, `(r, v) = (exRef2, true)`, `p = 2` …
+    (exCfg.fixed = true ∧ (exCfg.gapopen ≤ exCfg.gapextend ∧ exCfg.gapextend < 0) ∧
+      (pairs exCfg [exRef1, exRef2])[3]? = some (exRef2, true) ∧ exRef2 ≠ [] ∧ GAP ∉ exRef2 ∧
+      Dom (schemeOf (exCfg.aligner exRef2 (strand exSeq true))) exRef2 (strand exSeq true) ∧
+      exRef2 <+: (strand exSeq true).drop 2 ∧
+      (∀ q, exRef2 <+: (strand exSeq true).drop q → q = 2) ∧
+      (∀ j r' v', (pairs exCfg [exRef1, exRef2])[j]? = some (r', v') → j ≠ 3 →
+        Dom (schemeOf (exCfg.aligner r' (strand exSeq v'))) r' (strand exSeq v') ∧
+        (j < 3 → GAP ∉ strand exSeq v' ∧
+          (W (schemeOf (exCfg.aligner r' (strand exSeq v'))) r'
+              < W (schemeOf (exCfg.aligner exRef2 (strand exSeq true))) exRef2 ∨
+            (W (schemeOf (exCfg.aligner r' (strand exSeq v'))) r'
+              ≤ W (schemeOf (exCfg.aligner exRef2 (strand exSeq true))) exRef2 ∧
+              ∀ q, ¬ r' <+: (strand exSeq v').drop q))) ∧
+        (3 < j → W (schemeOf (exCfg.aligner r' (strand exSeq v'))) r'
+            ≤ W (schemeOf (exCfg.aligner exRef2 (strand exSeq true))) exRef2))) ∧
+    -- … and the conclusion is the non-error disjunct: the hit is on the reverse-complemented copy
+    phaseNT exCfg Gen.standardcode [exRef1, exRef2] exSeq =
+      NTOut.ok ⟨2, [65, 84, 71, 65, 65, 65, 84, 65, 65, 67, 67], [65, 84, 71, 65, 65, 65, 84, 65, 65, 67, 67],
+        some [77, 75, 42]⟩ ⟨true, 0, 2, 10⟩ := by
+  have hp : pairs exCfg [exRef1, exRef2] =
+      [(exRef1, false), (exRef1, true), (exRef2, false), (exRef2, true)] := by decide
+  have hd : ∀ r' t s u, Dom (schemeOf (exCfg.aligner r' t)) s u :=
+    fun r' t s u => dom_of_scores exCfg r' t 2 (-1) rfl (by decide) (by decide) s u
+  -- "occurs nowhere" from the executable search
+  have hnone : ∀ (r' t : Seq), r' ≠ [] → occurrences r' t = [] → ∀ q, ¬ r' <+: t.drop q := by
+    intro r' t hne hocc q hq
+    obtain ⟨post, hpost⟩ := hq
+    have hlen : r'.length + post.length = t.length - q := by
+      have := congrArg List.length hpost; simpa using this
+    have hm : 0 < r'.length := List.length_pos_iff.mpr hne
+    have hmem : q ∈ occurrences r' t := by
+      simp only [occurrences, List.mem_filter, List.mem_range, occursAt, Bool.and_eq_true, decide_eq_true_eq,
+        beq_iff_eq]
+      refine ⟨by omega, by omega, ?_⟩
+      simp only [Phase.slice, Nat.add_sub_cancel_left, ← hpost, List.take_left]
+    rw [hocc] at hmem
+    cases hmem
+  refine ⟨⟨rfl, by decide, by decide, by decide, by decide, hd _ _ _ _, by decide,
+    once_of_occurrences _ _ 2 (by decide) (by decide), ?_⟩, by decide⟩
+  intro j r' v' hj hjk
+  rw [hp] at hj
+  refine ⟨hd _ _ _ _, ?_⟩
+  match j, hj, hjk with
+  | 0, hj, _ =>
+    simp only [List.getElem?_cons_zero, Option.some.injEq, Prod.mk.injEq] at hj
+    obtain ⟨rfl, rfl⟩ := hj
+    exact ⟨fun _ => ⟨by decide, Or.inl (by decide)⟩, fun h => absurd h (by decide)⟩
+  | 1, hj, _ =>
+    simp only [List.getElem?_cons_succ, List.getElem?_cons_zero, Option.some.injEq, Prod.mk.injEq] at hj
+    obtain ⟨rfl, rfl⟩ := hj
+    exact ⟨fun _ => ⟨by decide, Or.inl (by decide)⟩, fun h => absurd h (by decide)⟩
+  | 2, hj, _ =>
+    -- the same reference on the forward strand: equal self-score, but it does not occur there
+    simp only [List.getElem?_cons_succ, List.getElem?_cons_zero, Option.some.injEq, Prod.mk.injEq] at hj
+    obtain ⟨rfl, rfl⟩ := hj
+    exact ⟨fun _ => ⟨by decide, Or.inr ⟨by decide, hnone _ _ (by decide) (by decide)⟩⟩,
+      fun h => absurd h (by decide)⟩
+  | 3, _, hjk => exact absurd rfl hjk
+  | j + 4, hj, _ => simp at hj
 
 /-! ### no positive alignment, and a hit shorter than its frame shift
 
